@@ -96,15 +96,15 @@ End Conv.
 
 (* ------------------------------------------------------------------------------------------ *)
 (* every successful generation-2 bid satisfies the extracted price predicate                   *)
-Lemma bid_price_holds cf lk a s who amt0 wd twa s' a' r :
+Lemma bid_price_holds_gen auto cf lk a s who amt0 wd twa s' a' r :
   good_cfg cf lk -> good_auction cf lk a -> 0 <= twa < 9223372036854775808 ->
   c_dc cf <= P18 -> c_dc cf <= a_price a -> c_dd cf <= P18 -> c_dd cf <= dp_of lk twa ->
-  place_bid_core cf lk a s who amt0 wd twa = Ok (s', a', r) ->
+  place_bid_gen auto cf lk a s who amt0 wd twa = Ok (s', a', r) ->
   holds_C10_bid (c_dc cf) (c_dd cf) (a_price a) (dp_of lk twa) (a_coll a) (a_debt a) (a_bonus a)
                 (r_paid r) (r_recv r) (r_closed r) = true.
 Proof.
   intros GC GA Htwa Hdc1 Hdc2 Hdd1 Hdd2 H.
-  pose proof (place_bid_amounts _ _ _ _ _ _ _ _ _ _ _ GC GA Htwa H) as (Hpaid & Hrecv & Hrest).
+  pose proof (place_bid_amounts_gen _ _ _ _ _ _ _ _ _ _ _ _ GC GA Htwa H) as (Hpaid & Hrecv & Hrest).
   pose proof (dp_nonneg lk twa Htwa) as Hdp.
   destruct GC as [gdd gdc _ _ _ gbon], GA as [gdebt gcoll gbonus gprice _ _].
   set (dc := c_dc cf) in *. set (dd := c_dd cf) in *. set (pc := a_price a) in *. set (pd := dp_of lk twa) in *.
@@ -132,3 +132,11 @@ Proof.
       assert ((r_recv r - 2) * (pc * dd) <= (r_paid r + 3 + a_bonus a) * (pd * dc)) by nia.
       lia.
 Qed.
+
+Lemma bid_price_holds cf lk a s who amt0 wd twa s' a' r :
+  good_cfg cf lk -> good_auction cf lk a -> 0 <= twa < 9223372036854775808 ->
+  c_dc cf <= P18 -> c_dc cf <= a_price a -> c_dd cf <= P18 -> c_dd cf <= dp_of lk twa ->
+  place_bid_core cf lk a s who amt0 wd twa = Ok (s', a', r) ->
+  holds_C10_bid (c_dc cf) (c_dd cf) (a_price a) (dp_of lk twa) (a_coll a) (a_debt a) (a_bonus a)
+                (r_paid r) (r_recv r) (r_closed r) = true.
+Proof. exact (bid_price_holds_gen false cf lk a s who amt0 wd twa s' a' r). Qed.
